@@ -380,6 +380,49 @@ def impl_ofxtree(P, s, version=102):
     return ("ok", None if r is None else elem_to_tuple(r))
 
 
+# ---------------------------------------------------------------- the front door: OFXTree.parse on the bytes of a file
+V1_HEADER = ("OFXHEADER:100\r\nDATA:OFXSGML\r\nVERSION:102\r\nSECURITY:NONE\r\nENCODING:%s\r\nCHARSET:%s\r\nCOMPRESSION:NONE\r\n"
+             "OLDFILEUID:NONE\r\nNEWFILEUID:NONE\r\n\r\n")
+V2_HEADER = ('<?xml version="1.0" encoding="UTF-8" standalone="no"?>\r\n'
+             '<?OFX OFXHEADER="200" VERSION="220" SECURITY="NONE" OLDFILEUID="NONE" NEWFILEUID="NONE"?>\r\n')
+DOORS = {"v1/CHARSET:1252": (V1_HEADER % ("USASCII", "1252"), "cp1252"), "v1/CHARSET:ISO-8859-1": (V1_HEADER % ("USASCII", "ISO-8859-1"), "latin_1"),
+         "v1/CHARSET:NONE": (V1_HEADER % ("UNICODE", "NONE"), "utf_8"), "v2": (V2_HEADER, "utf_8")}
+
+
+def file_bytes(door, body):
+    """header + body in the codec the header declares, or None when the body has no spelling in that codec"""
+    hdr, codec = DOORS[door]
+    try:
+        b = body.encode(codec)
+        if b.decode(codec) != body:
+            return None
+    except UnicodeError:
+        return None
+    return hdr.encode("ascii") + b
+
+
+def impl_front(P, door, body, by_name=False):
+    """OFXTree().parse(file) with the default parser -> outcome classes of impl_parse; None when the door cannot carry the body"""
+    data = file_bytes(door, body)
+    if data is None:
+        return None
+    t = P.OFXTree()
+    try:
+        if by_name:
+            import tempfile
+            with tempfile.NamedTemporaryFile(suffix=".ofx", delete=False) as f:
+                f.write(data)
+            try:
+                r = t.parse(f.name)
+            finally:
+                os.unlink(f.name)
+        else:
+            r = t.parse(io.BytesIO(data))
+    except Exception as e:
+        return (classify_exc(e), type(e).__name__)
+    return ("ok", None if r is None else elem_to_tuple(r))
+
+
 def impl_matches(P, s):
     out = []
     for m in P.TreeBuilder.regex.finditer(s):
@@ -494,6 +537,13 @@ def classify_c02(rd, text, out):
                 return "cdata:two-sections-on-one-line"
         return "cdata:other"
     return "tree-differs"
+
+
+def close_all(rd):
+    """the same rendering with every data element's end tag written"""
+    if rd[0] == "agg":
+        return ("agg", rd[1], rd[2], [close_all(c) for c in rd[3]], rd[4])
+    return rd[:6] + (True,) + rd[7:]
 
 
 def uncdata(rd):
@@ -642,6 +692,36 @@ def run(rep, tier, rng):
             if o1 != o2:
                 fail("ofxtree-differs-from-builder", "OFXTree.parse(header+%r) -> %r but TreeBuilder -> %r" % (s, o2, o1), text=s, via="OFXTree", observed=o2)
 
+    # ---------------- the front door: the same documents as FILES (v1 header with CHARSET 1252 / ISO-8859-1 / NONE, v2 header), read with
+    #                  OFXTree.parse(BytesIO | file name) and the default parser: the tree TreeBuilder gives for the body text, for every header
+    front = []
+    for x in ENTITY_DATA + WIDE_DATA:          # fully closed (well-formed XML) and SGML spellings of documents whose data would change under an XML reader
+        d = ("agg", "OFX", [("leaf", "NAME", x), ("agg", "STMTRS", [("leaf", "MEMO", x), ("agg", "E", [])]), ("leaf", "B", "1")])
+        for st in ("xml", "sgml", "pretty"):
+            rd = rand_rendering(rng, d, st)
+            if st == "pretty":
+                rd = close_all(rd)
+            front.append(render(rd, ""))
+        if cdata_ok(x):
+            front.append(render(("agg", "OFX", "\r\n", [("leaf", "NAME", True, "", x, "", True, "\r\n")], "\r\n"), ""))
+    pool = [t for t, (o, w) in first_out.items() if len(t) < 400]
+    front += pool if len(pool) <= (900 if thorough else 130) else rng.sample(pool, 900 if thorough else 130)
+    seen_front = False
+    for k, body in enumerate(front):
+        want_out = impl_parse(P, body)
+        for j, door in enumerate(DOORS):
+            if not thorough and len(front) > 200 and (k + j) % 2 and k >= 4 * len(ENTITY_DATA + WIDE_DATA):
+                continue
+            got = impl_front(P, door, body, by_name=(k % 17 == 0))
+            if got is None:
+                continue
+            rep.count(("front", door, body), nontrivial=(got[0] == "ok"), kind="front-door:" + door)
+            same = (got == want_out) or (got[0] != "ok" and want_out[0] != "ok")
+            if not same and not seen_front:
+                seen_front = True
+                fail("ofxtree-differs-from-builder", "OFXTree.parse(%s header + %r) -> %r but TreeBuilder on the same body text -> %r" % (door, body[:300], got, want_out),
+                     text=body, door=door, expected_outcome=want_out, observed=got)
+
     # ---------------- "one and the same tree" also AFTER the parser has refused something: every parse uses a new TreeBuilder ----------------
     goods = [t for t, (o, w) in first_out.items() if o == ("ok", w) and len(t) < 300]
     goods = goods if len(goods) <= 12 else rng.sample(goods, 12)
@@ -789,6 +869,13 @@ def replay(obj):
     import ofxtools.Parser as P
     r = obj["replay"]
     s = r["text"]
+    if "door" in r:
+        got, ref = impl_front(P, r["door"], s), impl_parse(P, s)
+        print("replay OFXTree.parse(%s header + %r) -> %r; TreeBuilder on the body text -> %r" % (r["door"], s, got, ref))
+        bad = not (got == ref or (got[0] != "ok" and ref[0] != "ok"))
+        if bad:
+            print("VIOLATION property=C02 replay=(this file)")
+        return 1 if bad else 0
     out = impl_ofxtree(P, s) if r.get("via") == "OFXTree" else impl_parse(P, s)
     want = r.get("expected")
     print("replay TreeBuilder on %r -> %r" % (s, out))
